@@ -60,6 +60,9 @@ type SrcFile struct {
 	// go list then hands go/packages the copy cgo writes into the build cache, whose //line directives
 	// point back to this file by absolute path.
 	Cgo bool `json:"cgo,omitempty"`
+	// BOM: the file starts with a byte order mark; CRLF: its lines end in \r\n (both legal Go source)
+	BOM  bool `json:"bom,omitempty"`
+	CRLF bool `json:"crlf,omitempty"`
 }
 
 // PreFile is a file that exists before gengo runs and is not a spec'd source.
@@ -363,7 +366,14 @@ func (m *ModuleSpec) FileSource(pi int, f *SrcFile, first bool) string {
 		}
 		sb.WriteString(d.Source())
 	}
-	return sb.String()
+	out := sb.String()
+	if f.CRLF {
+		out = strings.ReplaceAll(out, "\n", "\r\n")
+	}
+	if f.BOM {
+		out = "\uFEFF" + out
+	}
+	return out
 }
 
 // stdUse: how a source file uses a std import. Loading is LoadAllSyntax, so
